@@ -366,7 +366,14 @@ func c16Case(w *fw.W, idx int, r *fw.Rand) {
 			}
 			if withR && r.P(1, 2) {
 				// operands of a host-defined custom die: read by ReadExpr, evaluated by the handler
-				plain = "R" + r.Pick([]string{"1+2", "(2+3)*2", "`{% i = 0; while i < 3 { i = i + 1 } %}{i}`", "`{% func fff() { 42 }; fff() %}`", "`{% if 1 { 2 } %}`", "(2d)", "(1|2)", "b2", "(f)", "(3a8)", "(2c8)", "`{b2}{f}`", "(d6)"})
+				if r.P(1, 3) {
+					// a custom dice term, then a switch line and/or an st list, then statements
+					plain = r.Pick([]string{"R(1)", "1 + R(2)", "R1"}) + r.Pick([]string{"\n// #EnableDice coc true\n", "\n// #EnableDice fate false\n", "; ", "\n// #EnableDice dnd true\n"}) + r.Pick([]string{"i = 0; while i < 2 { i = i + 1 }; i", "if 1 { 2 }", "func gq() { 1 }; gq()", "2d", "1|2"})
+				} else if r.P(1, 4) {
+					plain = "^st甲:(R2) 乙:5 丙:(`{% j=0; while j<3 {j=j+1} %}{j}`)"
+				} else {
+					plain = "R" + r.Pick([]string{"1+2", "(2+3)*2", "`{% i = 0; while i < 3 { i = i + 1 } %}{i}`", "`{% func fff() { 42 }; fff() %}`", "`{% if 1 { 2 } %}`", "(2d)", "(1|2)", "b2", "(f)", "(3a8)", "(2c8)", "`{b2}{f}`", "(d6)"})
+				}
 			}
 			src = macro + plain
 			if k > 0 && r.P(1, 3) {
